@@ -60,6 +60,10 @@ def fee_model(fee):
         return q.ZeroFeeModel()
     if fee == 'default':
         return q.PercentFeeModel()
+    # the two rates are the documented first and second arguments: by keyword, or (odd calls) by position
+    fee_model.calls = getattr(fee_model, 'calls', 0) + 1
+    if fee_model.calls % 2:
+        return q.PercentFeeModel(fee[0], fee[1])
     return q.PercentFeeModel(commission_pct=fee[0], tax_pct=fee[1])
 
 
